@@ -105,8 +105,14 @@ def i_dict_loop(c):
     else:
         lines += [f"for {k} in {src}:"] + ind([f"{d}[{k}] = {val}"])
     lines.append(f"print({d})")
-    form = r.randrange(6)
-    if form == 0:
+    form = r.randrange(9)
+    if form == 6:  # the dictionary is written through the key inside the loop
+        lines += [f"for {k} in {d}.keys():"] + ind([r.choice([f"{d}[{k}] = 0", f"{d}[{k}] = {d}[{k}] * 2", f"{d}[{k}] += 1", f"print({d}[{k}])\n    {d}[{k}] = -1"])]) + [f"print({d})"]
+    elif form == 7:  # nested container and a tuple key
+        lines += [f"{v} = {{1: {d}, 2: {{}}}}", f"for {k} in {v}[2 ** 0].keys():"] + ind([r.choice([f"{v}[2 ** 0][{k}] = 0.5", f"print({v}[2 ** 0][{k}])"])]) + [f"print({v})"]
+    elif form == 8:
+        lines += [f"grid = {{(1, 2): 3, (4, 5): 6}}", f"for row, column in grid.keys():"] + ind([r.choice(["grid[row, column] = 0", "print(grid[row, column])", "print(row, grid[(row, column)])"])]) + ["print(grid)"]
+    elif form == 0:
         lines += [f"for {k} in {d}.keys():"] + ind([f"print({k}, {d}[{k}])"])
     elif form == 1:
         lines += [f"for {k}, {v} in {d}.items():"] + ind([f"print({k})"])
@@ -401,6 +407,10 @@ def i_duplicate_functions(c):
     d2 = d1 if r.random() < 0.7 else ", k=2"
     lines = [f"def {f}(a, b{d1}):"] + ind(body1) + ["", "", f"def {g}(x, y{d2.replace('k', 'k')}):"] + ind(body2) + ["", ""]
     lines += [f"print({f}(1, 2), {g}(1, 2), {f}(0, 5), {g}(0, 5))"]
+    if r.random() < 0.4:  # bodies that differ only in a constant, of the same or of another type (1 / 1.0 / True, '1' / b'1', None / ...)
+        k1, k2 = r.choice([("1", "1.0"), ("1", "True"), ("'1'", "b'1'"), ("0", "False"), ("None", "..."), ("2.5", "2.5"), ("1.5", "2.5"), ("1j", "1"), ("(1, 2)", "(1, 2.0)"), ("b'a'", "b'b'")])
+        h1, h2 = c.name("konst"), c.name("konst")
+        lines += [f"def {h1}(q):", f"    return [q, {k1}]", "", "", f"def {h2}(w):", f"    return [w, {k2}]", "", "", f"print({h1}(0), {h2}(0))"]
     if r.random() < 0.3:
         lines += [f"{g} = {f}", f"print({g}(2, 2))"]
     return lines
@@ -639,12 +649,33 @@ def i_constrained_range(c):
     return [f"print({form.format(x=x, rng=rng, cond=cond)})"]
 
 
+def i_effectful_helper(c):
+    """Bare calls of functions whose effects sit in a statement that always returns or raises (if/else, try/finally, with, a final raise)."""
+    r = c.r
+    f, x = c.name("helper"), c.name("x")
+    body = r.choice([
+        [f"if {x}:", "    print('yes')", "    return 1", "else:", "    print('no')", "    return 0"],
+        ["try:", f"    print('try', {x})", "    return 1", "finally:", "    print('finally')"],
+        [f"print('before', {x})", "raise ValueError('boom')"],
+        [f"if {x}:", f"    return {c.t()}", f"return {c.t()}"],
+        [f"for item in [{x}]:", "    print('item', item)", "    return item", "return None"],
+        [f"if {x} > 0:", "    return 1", "return 0"],
+    ])
+    lines = [f"def {f}({x}):"] + ind(body) + ["", ""]
+    call = lambda a: f"{f}({a})"  # noqa: E731
+    if "raise ValueError" in body[-1]:
+        lines += ["try:"] + ind([call(1)]) + ["except ValueError:"] + ind(["print('caught')"])
+    else:
+        lines += [call(1), call(0), f"print({call(2)})"]
+    return lines
+
+
 IDIOMS = {f.__name__[2:]: f for f in [
     i_list_append_loop, i_dict_loop, i_dict_literal_updates, i_collection_add_update, i_if_return_bool, i_redundant_else, i_swap_if_else, i_early_return, i_early_continue,
     i_filter_map_lambda, i_for_filter, i_comprehension_forms, i_literal_functions, i_unused_and_pointless, i_dead_code, i_singleton_compare, i_boolean_logic, i_staticmethod_class,
     i_unconventional_class, i_duplicate_functions, i_imports, i_overused_constant, i_assign_return, i_context_manager, i_raise_from, i_zip_enumerate, i_defaultdict,
     i_move_before_loop, i_nested_loops, i_logging, i_negated_compare, i_lambda_redundant, i_commented_code, i_while_counter, i_invalid_escape, i_string_ops, i_numpy,
-    i_const_iter_loop, i_loop_carried, i_constrained_range,
+    i_const_iter_loop, i_loop_carried, i_constrained_range, i_effectful_helper,
 ]}
 NEEDS = {"numpy": "numpy"}
 
